@@ -778,64 +778,41 @@ func (p *Program) UsesAppend() bool {
 	return p.Has(func(n *Node) bool { return n.K == KVar && n.Name == "append" })
 }
 
-// ShadowsSelfName reports whether some defn named n rebinds n inside its own body (parameter,
-// let/letseq binding, def, set, nested defn, nested fn parameter) and also calls n there: the shape
-// on which "self tail call chosen by name at compile time" (KNOWN_FINDINGS tco-by-name) can differ
-// from lexical scoping.
+// ShadowsSelfName reports whether some defn named n calls n in its body while n is bound a second
+// time somewhere in the program (parameter, let/letseq binding, def, set, another defn, fn
+// parameter, inside or outside the defn): the shape on which "self tail call chosen by name at
+// compile time" (KNOWN_FINDINGS tco-by-name) can differ from lexical scoping.
 func (p *Program) ShadowsSelfName() bool {
-	found := false
-	p.Walk(func(d *Node) {
-		if d.K != KDefn {
-			return
-		}
-		name := d.Name
-		rebinds, calls := false, false
-		for _, q := range d.Params {
-			if q == name {
-				rebinds = true
+	binders := map[string]int{}
+	p.Walk(func(n *Node) {
+		switch n.K {
+		case KDef, KSet, KDefn:
+			binders[n.Name]++
+		case KLet, KLetSeq:
+			for _, x := range n.Binds {
+				binders[x]++
 			}
 		}
-		if d.Rest == name {
-			rebinds = true
+		if n.K == KFn || n.K == KDefn {
+			for _, x := range n.Params {
+				binders[x]++
+			}
+			if n.Rest != "" {
+				binders[n.Rest]++
+			}
+		}
+	})
+	found := false
+	p.Walk(func(d *Node) {
+		if d.K != KDefn || binders[d.Name] < 2 {
+			return
 		}
 		for _, b := range d.Kids {
 			b.Walk(func(n *Node) {
-				switch n.K {
-				case KDef, KSet, KDefn:
-					if n.Name == name {
-						rebinds = true
-					}
-				case KLet, KLetSeq:
-					for _, x := range n.Binds {
-						if x == name {
-							rebinds = true
-						}
-					}
-				case KFn:
-					for _, x := range n.Params {
-						if x == name {
-							rebinds = true
-						}
-					}
-					if n.Rest == name {
-						rebinds = true
-					}
-				case KCall:
-					if n.Kids[0].K == KVar && n.Kids[0].Name == name {
-						calls = true
-					}
-				}
-				if n.K == KDefn {
-					for _, x := range n.Params {
-						if x == name {
-							rebinds = true
-						}
-					}
+				if n.K == KCall && n.Kids[0].K == KVar && n.Kids[0].Name == d.Name {
+					found = true
 				}
 			})
-		}
-		if rebinds && calls {
-			found = true
 		}
 	})
 	return found
